@@ -28,7 +28,7 @@ CLAIMED.update({
 
 CLAIMED.update({
     "C09": dict(
-        text="Deductive proof (Verus) that the real body of compile_quoted_string_ex returns decode(s) for every input string, decode being written from the property's escape table (\\n \\r \\t \\a \\b \\f \\v \\0, any other escaped character stands for itself, a lone trailing backslash is dropped); the literal window of cpp::process (R8) numbers the markers with the same counter that indexes the literal table, in skipped text as well.",
+        text="Deductive proof (Verus) that the real body of compile_quoted_string_ex returns decode(s) for every input string, decode being written from the property's escape table (\\n \\r \\t \\a \\b \\f \\v \\0, any other escaped character stands for itself, a lone trailing backslash is dropped); the literal window of cpp::process (R8) numbers the markers with the same counter that indexes the literal table, in skipped text as well; parse_expr / parse_expr_init_value advance the counter that names the literal tables (`cctmp<N>`) by the number of literals they created.",
         note="Partial: recognition of the literal's extent by the scanner of cpp::process (before comment/macro processing), NUL termination/concatenation (compile_quoted_string, pest Pairs) and literal sizes are not under contract. vstd prophetic iterator spec of str::chars; char::from_u32 assumed specification; termination unproved.",
         technique="contract-based deductive verification (Verus loop invariant over the prophetic Chars iterator, function extracted mechanically from /repo)",
         design="DESIGN.md section 5, C09"),
@@ -61,7 +61,7 @@ CLAIMED.update({
 CLAIMED.update({
     "C06": dict(
         text="Deductive proof (Verus) on the real offset-to-line loops of syntax_error / compiler_error / warning (line index = number of newlines before the offset, for every text and every offset including 0 and end of text), on the index expressions used to read the line table, and on the parse-error arm of compile() (file and line come from the line-table entry of the line pest reports; no index panic, also for an empty table).",
-        note="Partial: that cpp::process builds the line table correctly across comments, splices, skipped regions and includes is not under contract (string scanning without library specifications). Byte offsets equal character offsets only for ASCII text (A-ascii). pest line numbers are 1-based (A-pest-lines).",
+        note="The three places of cpp::process that write to the output are under contract (U-linemap): each pushes exactly as many line-table entries as it writes newlines. Partial: the reader loop of cpp::process (comments, splices, skipped regions) is not under contract (string scanning without library specifications). Byte offsets equal character offsets only for ASCII text (A-ascii). pest line numbers are 1-based (A-pest-lines).",
         technique="contract-based deductive verification (Verus loop invariant on the code blocks extracted mechanically from /repo)",
         design="DESIGN.md section 5, C06"),
 })
